@@ -371,11 +371,17 @@ let run_case op t =
       let l1 = next_zlist t in let l2 = next_zlist t in
       let m = [ tuple_eq_m Z.eqb z0 l1 l2; tuple_ne_m Z.eqb z0 l1 l2; tuple_eq_m Z.eqb z0 l2 l1 ] in
       let e = zlist_eq_spec l1 l2 in
-      (join ("ok" :: List.map b2s m), join ("ok" :: List.map b2s [ e; not e; e ]))
+      (* the last two: the same comparison between tuples of different element types *)
+      let m = m @ [ tuple_eq_m Z.eqb z0 l1 l2; tuple_ne_m Z.eqb z0 l2 l1 ] in
+      (join ("ok" :: List.map b2s m), join ("ok" :: List.map b2s [ e; not e; e; e; not e ]))
   | "tswap" ->
       let l1 = next_zlist t in let l2 = next_zlist t in
       let a, b = tuple_swap_m z0 l1 l2 in
-      (join [ "ok"; zlist_s a; zlist_s b ], join [ "ok"; zlist_s l2; zlist_s l1 ])
+      let a', b' = tuple_swap_m z0 a b in   (* the non-member swap calls the member swap *)
+      (join [ "ok"; zlist_s a; zlist_s b; zlist_s a'; zlist_s b' ], join [ "ok"; zlist_s l2; zlist_s l1; zlist_s l1; zlist_s l2 ])
+  | "tswapref" ->
+      let a = next_z t in let b = next_z t in let c = next_z t in let d = next_z t in
+      (join ("ok" :: List.map str_of_z (tuple_swap_refs_m a b c d)), join ("ok" :: List.map str_of_z (tuple_swap_refs_spec a b c d)))
   | "tget" ->
       let l = next_zlist t in
       let e = idx_expand z0 l in
@@ -405,7 +411,10 @@ let run_case op t =
   | "ttraits" ->
       let n = next_int t in
       let es = List.init n (fun _ -> elem_of_code (next_int t)) in
-      (join ("ok" :: List.map b2s (tuple_traits_m es)), join ("ok" :: List.map b2s (tuple_traits_spec es)))
+      let co = List.mem ECopyOnly es in
+      let sw b = if co then "x" else b2s b in
+      (join (("ok" :: List.map b2s (tuple_traits_m es)) @ [ sw (tuple_swappable_m es) ]),
+       join (("ok" :: List.map b2s (tuple_traits_spec es)) @ [ sw (tuple_swappable_spec es) ]))
   | "voidret" ->
       let x = next_z t in
       (join [ "ok"; str_of_z (void_ret_m x) ], join [ "ok"; str_of_z (void_ret_spec x) ])
@@ -444,6 +453,11 @@ let run_case op t =
       let v = next_z t in
       let pr (vals, bits) = join (("ok" :: List.map str_of_z vals) @ List.map b2s bits) in
       (pr (fref_ptr_m v), pr (fref_ptr_spec v))
+  | "frefwf" ->
+      let q = next_int t in
+      let a = cat_of_code (next_int t) in
+      let pr wf = join ([ "ok"; b2s wf ] @ (if wf then [ string_of_int (5 + 10 + q) ] else [])) in
+      (pr (fref_ctor_wf_m (pmfq_of q) a), pr (fref_ctor_wf_spec (pmfq_of q) a))
   | "frefops" ->
       let v = next_z t in
       (join ("ok" :: List.map str_of_z (fref_ops_m v)), join ("ok" :: List.map str_of_z (fref_ops_spec v)))
@@ -473,26 +487,45 @@ let run_case op t =
       let _, sobs = run_s [] all n init_astate ops in
       let spec = join ([ "ok" ] @ toks_of sobs @ [ "live0"; "bad0"; "sizes"; string_of_int nsizes ]) in
       (model, spec)
-  | "ipf" ->
+  | "ipf" | "ipfx" ->
       let pal = next_int t in
-      let nw0 = next_int t in
+      let nb0 = next_int t in
+      let ns0 = if op = "ipfx" then next_int t else 0 in
       let nops = next_int t in
       let raw = List.init nops (fun _ -> let c = next_int t in let a = next_int t in let b = next_int t in (c, a, b)) in
-      let nw = if nw0 < 1 || nw0 > 4 then 2 else nw0 in
+      let nb, ns = if nb0 < 0 || ns0 < 0 || nb0 + ns0 < 1 || nb0 + ns0 > 4 then (2, 0) else (nb0, ns0) in
+      let nw = nb + ns in
       let n = nat_of_int nw in
       let stateless, tracked = palette_sets pal in
       let stateless = List.map zi stateless and tracked = List.map zi tracked in
-      (* unknown opcodes and negative indices are skipped by the harness: map them to an out-of-range op *)
+      (* unknown opcodes, negative indices and operations the wrapper TYPES do not allow (wrappers nb .. nb+ns-1 have the
+         small capacity: see ipf_well_typed in c20_ipf.inc) are skipped by the harness: map them to an out-of-range op *)
       let far = nat_of_int 99 in
+      let small i = i >= nb in
+      let fits tg = List.mem tg (match pal with 3 -> [ 0; 2 ] | _ -> [ 0 ]) in
+      let b_is_wrapper c = List.mem c [ 1; 2; 3; 4; 6; 7 ] in
+      let well_typed c a b =
+        match c with
+        | 0 | 12 -> (not (small a)) || fits b
+        | 1 | 2 | 3 | 4 -> not (small a && not (small b))
+        | 6 | 7 -> small a = small b
+        | 10 | 11 -> not (small a)
+        | _ -> true in
       let named =
         List.map
           (fun (c, a, b) ->
-            if a < 0 then ("skip", OBool far)
-            else match op_of c a b with
-              | Some (nm, o) ->
-                  let neg_b = b < 0 && (match o with OCopyAssign _ | OMoveAssign _ | OCopyCtor _ | OMoveCtor _ | OSwap _ -> true | _ -> false) in
-                  if neg_b then ("skip", OBool far) else (nm, o)
-              | None -> ("skip", OBool far))
+            if a < 0 || a >= nw || (b_is_wrapper c && (b < 0 || b >= nw)) then ("skip", OBool far)
+            else if not (well_typed c a b) then ("skip", OBool far)
+            else
+              (* big destination, small persistent source: the converting constructors *)
+              let conv = b_is_wrapper c && (not (small a)) && small b in
+              let wa = nat_of_int a and wb = nat_of_int b in
+              match c with
+              | 1 when conv -> ("ca", OConvCopyAssign (wa, wb))
+              | 2 when conv -> ("ma", OConvMoveAssign (wa, wb))
+              | 3 when conv -> ("cc", OConvCopyCtorW (wa, wb))
+              | 4 when conv -> ("mc", OConvMoveCtorW (wa, wb))
+              | _ -> (match op_of c a b with Some (nm, o) -> (nm, o) | None -> ("skip", OBool far)))
           raw in
       let names = List.map fst named and ops = List.map snd named in
       let model =
